@@ -187,7 +187,7 @@ func ruleP2(c *Ctx, id string) {
 				} else {
 					hc, _ = cv.(*ssa.Call)
 				}
-				if hc != nil && hc.Call.StaticCallee() != nil && isPrivateHelper(hc.Call.StaticCallee()) {
+				if hc != nil && staticCallee(hc) != nil && isPrivateHelper(staticCallee(hc)) {
 					for _, a := range hc.Call.Args {
 						if pm, ok := sub.resolve(stripConv(a)).(*ssa.Parameter); ok {
 							for i, q := range s.Params {
@@ -252,7 +252,7 @@ func ruleP3(c *Ctx, id string) {
 				if !ok {
 					return
 				}
-				cal := cl.Call.StaticCallee()
+				cal := staticCallee(cl)
 				if cal != nil && (V.Acquirers[cal] || cal == V.GetInodeUnlocked) {
 					nsrc++
 					_, afl, abase, _ := loadedFieldS(argN(cl, 0), sub)
@@ -518,8 +518,8 @@ func ruleP8(c *Ctx, id string) {
 					continue
 				}
 				for w := range bwdAll(v) {
-					if cl, ok := w.(*ssa.Call); ok && readsContent(cl.Call.StaticCallee()) {
-						why = FuncName(cl.Call.StaticCallee()) + " at " + P.Pos(cl.Pos())
+					if cl, ok := w.(*ssa.Call); ok && readsContent(staticCallee(cl)) {
+						why = FuncName(staticCallee(cl)) + " at " + P.Pos(cl.Pos())
 					}
 				}
 			}
